@@ -89,16 +89,32 @@ EXEC = [
 VALUE = [
   F('<Value as From<&str>>::from', spec="    ensures vv(r) == SV::Str(value@),"),
 ]
+CONTEXT = [
+  F('Context::new', trust=True, spec=""),
+  F('Context::set', trust=True, spec="        ensures final(self)@ == old(self)@.insert(name@, cv_view(v)),"),
+  F('Context::set_func', props=['C08'], spec="        ensures final(self)@ == old(self)@.insert(name@, CV::Func(func)),  // @C08 context.set_func"),
+  F('Context::set_variable', props=['C06'], spec="        ensures final(self)@ == old(self)@.insert(name@, CV::Var(vv(value))),  // @C06 context.set_variable"),
+  F('Context::get', props=['C06', 'C07', 'C08'],
+    spec="        ensures self@.dom().contains(name@) == (r is Some), r matches Some(c) ==> cv_view(c) == self@[name@],  // @C06,C07,C08 context.get"),
+  F('Context::get_func', props=['C08'], spec="        ensures r == spec_get_func(self@, name@),  // @C08 context.get_func"),
+  F('Context::get_variable', props=['C06'],
+    spec="        ensures self@.dom().contains(name@) && self@[name@] is Var ==> r is Some && vv(r->Some_0) == self@[name@]->Var_0,\n            !(self@.dom().contains(name@) && self@[name@] is Var) ==> r is None,  // @C06 context.get_variable"),
+  F('Context::value', props=['C03', 'C06', 'C07', 'C08'], spec="        ensures agree_v(r, spec_value(self@, name@)),  // @C03,C06,C07,C08 context.value"),
+]
 EXEC_KEYS = set(s.key for s in EXEC) | {'ExprAST::get_precidence'}
 UNIT = Unit('ev', [
     Ghost(_t('ev_prelude_head.rs'), name='prelude'),
     Src('error.rs'),
     Src('define.rs'),
     Src('operator.rs', keep_items=lambda kind, name: kind == 'enum' and name == 'InfixOpType'),
-    Src('value.rs', fns=VALUE, props=['C03', 'C17'],
+    Src('value.rs', fns=VALUE, props=['C03', 'C09', 'C17'],
         keep_items=lambda kind, name: (kind == 'enum' and name == 'Value') or (kind == 'impl' and name.startswith('<Value as From')),
         item_attr={'Value': '#[verifier::external_derive]'}),
     Ghost(_t('ev_prelude_trusted.rs'), name='ev_trusted'),
+    Src('context.rs', fns=CONTEXT, props=['C06', 'C07', 'C08'],
+        keep_items=lambda kind, name: (kind == 'enum') or (kind == 'impl' and name == 'Context'),
+        item_attr={'ContextValue': '#[verifier::external_derive]'}, dyn_calls=True,
+        regex_rules=[('rule30_lock_guard', r'self\.0\.lock\(\)\.unwrap\(\)', 'self.vx_lock()')]),
     Src('parser.rs', fns=EXEC, props=['C03', 'C06', 'C07', 'C08'],
         keep_fns=lambda k: k in EXEC_KEYS,
         keep_items=lambda kind, name: (kind == 'enum') or (kind == 'impl' and name == 'ExprAST'),
